@@ -696,8 +696,19 @@ func (f *frame) builtin(b *ssa.Builtin, c *ssa.CallCommon, base string, resT typ
 		_ = nh
 		newArr := e.declare(e.fresh(key+"!arr"), "(Array (_ BitVec 64) "+e.R.sortOf(el)+")")
 		// elements below old length are preserved
+		// append(s, x1, .., xn) with n <= 4 written out: the appended slots hold x1 .. xn
+		if sl, ok := c.Args[1].(*ssa.Slice); ok && e.R.sortOf(add.t) == "Slice" && sl.Low == nil && sl.High == nil {
+			if pt, ok := sl.X.Type().Underlying().(*types.Pointer); ok {
+				if at, ok := pt.Elem().Underlying().(*types.Array); ok && at.Len() >= 1 && at.Len() <= 4 {
+					for i := int64(0); i < at.Len(); i++ {
+						f.assume(fmt.Sprintf("(= (select %s (bvadd (sl-off %s) (bvadd (sl-len %s) %s))) (select (select %s (sl-ref %s)) (bvadd (sl-off %s) %s)))",
+							newArr, r.term, s.term, bvLit(i, 64), cur, add.term, add.term, bvLit(i, 64)))
+					}
+				}
+			}
+		}
 		e.heapSet(f.curHeap, key, sort, fmt.Sprintf("(store %s (sl-ref %s) %s)", cur, r.term, newArr))
-		e.note("append: result length exact, preserved prefix and appended contents not modelled")
+		e.note("append: result length exact, appended elements known for up to four written-out values; preserved prefix not modelled")
 		return r
 	case "copy":
 		dst := f.get(c.Args[0])
